@@ -7,8 +7,8 @@
   placement theorem of C08 (the fields the algorithm reads and the check-digit field are found
   unchanged in the assembled BBAN) this is "computing and validating agree"; the end-to-end form
   (every IBAN `generate` returns for one of the 19 countries passes national validation) is proved
-  in `C09EndToEnd.lean`.  Random draws and parse → rebuild are exercised by the correspondence
-  stream for every country with published positions.
+  in `C09EndToEnd.lean`, as is parse → rebuild (`rebuild`).  Random draws are exercised by the
+  correspondence stream (they funnel through `from_components`).
 -/
 import SV.Props.C08
 import SV.Props.C06
